@@ -783,3 +783,43 @@ prop(dict(
                                  "a coded size of 65536 does not fit the 16-bit SS fields: excluded from the equality clause (stated limit)",
                                  "payloader frames carry harness-packed header bits (same layout as VP9!HeaderBits, which TLC uses for the header cases)"],
 ))
+
+
+# ---------------------------------------------------------------- C14
+def rand_c14(seed, tier, cases=None):
+    rng = random.Random(seed * 7919 + 14)
+    out = []
+    for _ in range(500 if tier == "quick" else 12000):
+        mtu = rng.choice([4, 5, 6, 7, 9, 13, 20, 50, 100, 1200, rng.randint(4, 300)])
+        units = []
+        for _u in range(rng.randint(1, 4)):
+            t = rng.choice([0, 1, 19, 20, 32, 33, 34, 39, 40, 47, rng.randint(0, 47)])
+            n = rng.choice([3, 4, mtu - 3, mtu - 2, mtu - 1, mtu, mtu + 1, 2 * mtu, rng.randint(3, 3 * mtu + 3)])
+            n = max(3, n)
+            layer, tid = rng.randint(0, 63), rng.randint(1, 7)
+            units.append([t << 1 | layer >> 5, (layer & 31) << 3 | tid] + [rng.randint(1, 255) for _ in range(n - 2)])
+        out.append(dict(fam="C14", kind="payload", valid=True, mtu=mtu, donl=rng.random() < 0.3, skipagg=rng.random() < 0.4,
+                        calls=[dict(units=units, scs=[rng.choice([3, 4]) for _ in units])], **{"class": "rand_payload"}))
+    return out
+
+
+prop(dict(
+    id="C14", fam="C14",
+    mc=[("H265MC.tla", "H265MC.cfg", {"thorough": {"Sizes": "{3, 4, 5, 6, 8, 9, 12, 17}"}})],
+    gen=[("H265Gen.tla", "H265Gen.cfg", {"thorough": {"Stride16": "1", "Mtus": "{4, 5, 6, 7, 8, 9, 10, 11, 12, 13, 16, 20, 100, 1200}"}})],
+    rand=rand_c14,
+    trace=("H265Trace.tla", "H265Trace.cfg"),
+    shards={"quick": 2, "thorough": 12},
+    workers=16,
+    class_of=lambda c: c["class"],
+    nontrivial=lambda c: True,
+    mandatory=["single", "single_donl", "ap2", "ap3_donl", "fu_start_donl", "fu_middle", "fu_end", "paci", "paci_tsci", "paci_tsci_axis", "trunc_ap3", "trunc_single_donl",
+               "trunc_paci_tsci", "accessor_nal_header", "accessor_fu_header", "payload", "payload_fragmented", "payload_donl_fragmented", "payload_skipagg_multi", "rand_payload"],
+    rule="TLC builds, with the independent RFC 7798 encoder, single NAL unit packets (nine types x layer ids {0,1,63} x TID {1,7}), aggregation packets of two and three units, first/middle/"
+         "last fragmentation units and PACI packets (PHSsize 0/3/4/16/31, all F0-F2/Y/A combinations, TSCI), each with and without DONL, plus every truncation of each; the TSCI triple is covered "
+         "on its three byte axes (3 x 256) plus boundary products; NAL header accessors on 16-bit values (quick: stride 61 + boundaries, thorough: all 65536) and all 256 FU headers; payloader "
+         "scenarios: one, three and four units with sizes {3, MTU-4..MTU+2, 2MTU-2..2MTU+2} x MTU {4..12, 20, 1200} x AddDONL x SkipAggregation; seeded random unit lists are added",
+    assumptions=COMMON_ASSUME + ["fragmentation units produced by the independent encoder are never empty (the library refuses empty FU payloads; the RFC does not require accepting them)",
+                                 "a payload cut inside a third or later aggregation unit may be refused or yield the complete units before the cut",
+                                 "DON values are not judged, only the placement of the DONL/DOND fields"],
+))
